@@ -275,6 +275,18 @@ impl Parser {
         Ok(())
     }
 
+    /// Fail if a type nested `extra` levels below the current depth would be too deep.
+    /// (Chains of `?`, `+` and `*` are parsed by loops but build nested types.)
+    fn check_nesting(&self, extra: usize) -> Result<(), ErrorSet> {
+        if self.depth + extra > MAX_NESTING {
+            return Err(ErrorSet::single(
+                self.current_position(),
+                Error::ParseFailed(Some("type nested too deeply".to_owned())),
+            ));
+        }
+        Ok(())
+    }
+
     fn peek(&self) -> Option<&Token> {
         self.tokens.get(self.pos).map(|s| &s.token)
     }
@@ -695,7 +707,12 @@ fn parse_type(p: &mut Parser) -> Result<Option<Type>, ErrorSet> {
 
 fn parse_type_inner(p: &mut Parser) -> Result<Option<Type>, ErrorSet> {
     let mut lhs = parse_type_postfix(p)?;
+    let mut n_ops = 0;
     loop {
+        if p.peek() == Some(&Token::Plus) || p.peek() == Some(&Token::Star) {
+            n_ops += 1;
+            p.check_nesting(n_ops)?;
+        }
         if p.peek() == Some(&Token::Plus) {
             p.advance();
             let rhs = parse_type_postfix(p)?;
@@ -721,7 +738,10 @@ fn parse_type_inner(p: &mut Parser) -> Result<Option<Type>, ErrorSet> {
 /// which is how complete types are displayed
 fn parse_type_postfix(p: &mut Parser) -> Result<Option<Type>, ErrorSet> {
     let mut ty = parse_type_atom(p)?;
+    let mut n_ops = 0;
     while p.eat(&Token::Question) {
+        n_ops += 1;
+        p.check_nesting(n_ops)?;
         ty = ty.map(|inner| Type::Sum(Box::new(Type::One), Box::new(inner)));
     }
     Ok(ty)
